@@ -418,6 +418,90 @@ func famForge(r *Rng, o *Out, tier string) {
 			o.emit("(const sound)", "sound")
 		}
 	}
+	// the same protection for the DISCHARGES of a token with two third-party caveats: the first caveat's discharge is
+	// genuine, the second's has a caveat removed, reordered or altered (nonce and tail kept), or is signed under
+	// another key; presented in either order the token is refused - and the genuine pair returns every caveat
+	for fam := 0; fam < n; fam++ {
+		key, ka, kb := r.Bytes(32), r.Bytes(32), r.Bytes(32)
+		root, _ := macaroon.New(r.Bytes(8), "https://api.fly.io/v1", key)
+		ita, _ := newTP(ka, "https://auth.example")
+		itb, _ := newTP(kb, "https://other.example")
+		root.Add(r.plainCav(1))
+		root.Add(ita.cav)
+		if r.Bool() {
+			root.Add(r.plainCav(1))
+		}
+		root.Add(itb.cav)
+		tok := mustEnc(root)
+		_, da, _ := macaroon.DischargeTicket(ka, "https://auth.example", ita.tp.ticket)
+		da.Add(r.plainCav(1))
+		_, db, _ := macaroon.DischargeTicket(kb, "https://other.example", itb.tp.ticket)
+		c1, c2 := r.plainCav(1), r.plainCav(1)
+		db.Add(c1)
+		db.Add(c2)
+		daB, dbB := mustEnc(da), mustEnc(db)
+		if obs := emitVerify(o, key, tok, [][]byte{daB, dbB}, nil); obs != "err:unmodelled" {
+			if strings.HasPrefix(obs, "ok") {
+				o.emit("(const sound)", "sound")
+			} else {
+				o.emit("(const sound)", "genuine-discharge-pair-rejected")
+			}
+		}
+		mut := func(kind string, f func(d *macaroon.Macaroon) bool) {
+			d, err := macaroon.Decode(dbB)
+			if err != nil || !f(d) {
+				return
+			}
+			cand, err := d.Encode()
+			if err != nil || bytes.Equal(cand, dbB) {
+				return
+			}
+			for _, ds := range [][][]byte{{daB, cand}, {cand, daB}} {
+				obs := emitVerify(o, key, tok, ds, nil)
+				o.count("twoTP.discharge." + kind)
+				if obs == "err:unmodelled" {
+					continue
+				}
+				if strings.HasPrefix(obs, "ok") {
+					o.emit("(const sound)", "forgery:second-discharge-"+kind)
+				} else {
+					o.emit("(const sound)", "sound")
+				}
+			}
+		}
+		mut("stripped", func(d *macaroon.Macaroon) bool { d.UnsafeCaveats.Caveats = nil; return true })
+		mut("lastRemoved", func(d *macaroon.Macaroon) bool {
+			cs := d.UnsafeCaveats.Caveats
+			if len(cs) == 0 {
+				return false
+			}
+			d.UnsafeCaveats.Caveats = cs[:len(cs)-1]
+			return true
+		})
+		mut("reordered", func(d *macaroon.Macaroon) bool {
+			cs := d.UnsafeCaveats.Caveats
+			if len(cs) < 2 {
+				return false
+			}
+			cs[0], cs[1] = cs[1], cs[0]
+			return true
+		})
+		mut("altered", func(d *macaroon.Macaroon) bool {
+			if len(d.UnsafeCaveats.Caveats) == 0 {
+				return false
+			}
+			d.UnsafeCaveats.Caveats[0] = r.plainCav(1)
+			return true
+		})
+		mut("rekeyed", func(d *macaroon.Macaroon) bool {
+			f, err := macaroon.New(itb.tp.ticket, "https://other.example", r.Bytes(32))
+			if err != nil {
+				return false
+			}
+			*d = *f
+			return true
+		})
+	}
 	// "independently minted tokens never share a nonce" whatever the host program does with ITS pseudo-random
 	// generator: the same math/rand seed before two mints (a host seeding for reproducible runs) must not make
 	// nonces, keys, tickets or sealed verifier keys repeat
